@@ -355,10 +355,11 @@ def gen_foreign_calls(rng, tier, notes):
     n = 1 if tier == "quick" else 4
     try:
         from . import c15
-        cs = c15.gen_cases(rng, "quick")
-        units = [c for c in cs if c.get("kind", c.get("type", "")) in ("unit", "pair")] or cs
-        for c in units[: 12 * n]:
-            out.append(dict(k="worker", module="c15", case=c, fam="hydro-c15", budget=300.0))
+        pairs, bodies, units = c15.gen_cases(rng, "quick")
+        rng.shuffle(pairs)
+        rng.shuffle(units)
+        for c in pairs[: 30 * n] + units[: 12 * n] + bodies[: 2 * n]:
+            out.append(dict(k="worker", module="c15", case=c, fam="hydro-c15", budget=600.0))
     except Exception as e:  # noqa
         notes.append(f"family hydro-c15 unavailable: {type(e).__name__}: {str(e)[:120]}")
     try:
@@ -383,6 +384,15 @@ def gen_foreign_calls(rng, tier, notes):
 
 
 # ============================================================================= comparison
+# foreign workers (harness/impl/c14.py, c15.py): keys that exist in one mode only by construction of that worker, and
+# INTERNAL-STAGE outputs (raw half-plane intersections with duplicates, their ordering permutation, unfiltered polygons) whose
+# multiplicity / order legitimately depends on 1-ulp differences for degenerate pairs; the public outputs computed from them
+# (intersection flag, plane, area, force, centre of pressure) are compared strictly.  Soft mismatches are counted.
+IGNORE_KEYS = {"ref"}
+SOFT_KEYS = {"pts", "ordered", "perm", "uniq", "hps", "poly3d", "poly"}
+SOFT_HITS = []
+
+
 def fval(x):
     return float.fromhex(x) if isinstance(x, str) else float(x)
 
@@ -408,11 +418,19 @@ def cmp(a, b, tol_abs, rel, path, diffs, discrete):
             elif a["nd"] != b["nd"]:
                 discrete.append((path, a["nd"][:12], b["nd"][:12]))
             return
-        if set(a) != set(b):
-            discrete.append((path, sorted(a), sorted(b)))
+        ka = {k for k in a if k not in IGNORE_KEYS}
+        kb = {k for k in b if k not in IGNORE_KEYS}
+        if ka != kb:
+            discrete.append((path, sorted(ka), sorted(kb)))
             return
-        for k in a:
-            cmp(a[k], b[k], tol_abs, rel, f"{path}.{k}", diffs, discrete)
+        for k in ka:
+            if k in SOFT_KEYS:
+                sd, sx = [], []
+                cmp(a[k], b[k], tol_abs, rel, f"{path}.{k}", sd, sx)
+                if sd or sx:
+                    SOFT_HITS.append(f"{path}.{k}")
+            else:
+                cmp(a[k], b[k], tol_abs, rel, f"{path}.{k}", diffs, discrete)
         return
     if isinstance(a, list) and isinstance(b, list):
         if len(a) != len(b):
@@ -540,6 +558,8 @@ def run_list(calls, jit, tag, timeout):
     for w, (rr, ch) in enumerate(zip(res, chunks)):
         idxs = list(range(w, len(calls), nwk))
         if rr["status"] == "ok":
+            if bool(rr["result"].get("compiled")) != bool(jit):
+                raise RuntimeError(f"worker ran in the wrong mode: compiled={rr['result'].get('compiled')} requested jit={jit}")
             for i, x in zip(idxs, rr["result"]["results"]):
                 out[i] = x
         else:
@@ -664,6 +684,14 @@ def run(tier, seed, replay=None):
                 what = f"collider {c['c1']['kind']}/{c['c2']['kind']}: " + "; ".join(fs[:3])
             fam_cmp[fam] = fam_cmp.get(fam, 0) + 1
             distinct.add(cm.canon_hash([c["c1"], c["c2"]]))
+        elif c["k"] in ("worker", "aabbtree") and any(k in a["ok"].get("json", {}) or k in b["ok"].get("json", {})
+                                                       for k in ("exc", "harness_exc")):
+            ja, jb = a["ok"]["json"], b["ok"]["json"]
+            ea, eb = ja.get("exc") or ja.get("harness_exc"), jb.get("exc") or jb.get("harness_exc")
+            if ea != eb:
+                what = f"{fam}: worker case raised {ea} compiled vs {eb} interpreted"
+            else:
+                T.hit(f"foreign_case_raised_in_both_modes:{fam}:{ea}")
         else:
             diffs, discrete = [], []
             L = float(c.get("L", 1.0))
@@ -700,6 +728,7 @@ def run(tier, seed, replay=None):
     R.cov["distinct_nontrivial"] = len(distinct)
     R.cov["tallies"] = dict(sorted(T.items()))
     R.cov["boundary_skips"] = n_boundary
+    R.cov["internal_stage_soft_mismatches"] = len(SOFT_HITS)
     R.cov["programs"] = len(calls)
     R.cov["disagreements_checked"] = len(fails) + n_boundary
     for c in calls[:1] + [x for x in calls if x["k"] == "collider"][:1] + [x for x in calls if x["k"] == "aabbtree"][:1]:
